@@ -287,8 +287,60 @@ def wrap_spec(kind, sub):
     return spec
 
 
+def wrap_trunc_spec(kind):
+    """target left < source left, WRAP, c = r - sr > 0 fraction bits dropped, TRUNCATE:
+    the result pattern is  floor(raw / 2**c) mod 2**W   (W + c = w - ov kept-or-dropped source bits)"""
+
+    def spec(sx, self, left, right, round_style=RS.TRUNCATE, overflow_style=OS.WRAP):
+        w, e = sym.to_int(self.cls.params["width"]), self.cls.params["exp"]
+        ra = fx_raw(self)
+        ba = bits(self.fields["_val"])
+        W = left - right + 1
+        c = right - e
+        ov = (e + w - 1) - left
+        pc, pW, pWc = P2(c), P2(W), P2(W + c)
+        sx.pow2_facts(w, w - 1, c, W, W + c, ov, w - c, products=[(c, W), (W + c, ov), (c, w - c), (W, ov)])
+        # (1) the floor of the signed reading differs from the floor of the pattern by a multiple of 2**(w-c)
+        k = (ba - ra) / P2(w)  # 0 or 1: raw = pattern - k * 2**w
+        sx.lemma("div-multiple", k, P2(w))
+        sx.lemma("div-sub-multiple", ba, pc, k * P2(w - c))
+        sx.have("floor-of-raw", sym.eq(sym.pydiv(ra, pc), sym.pydiv(ba, pc) - k * P2(w - c)))
+        # (2) 2**(w-c) = 2**ov * 2**W: that multiple vanishes modulo 2**W
+        fb = sym.pydiv(ba, pc)
+        sx.lemma("div-sub-multiple", fb, pW, k * P2(ov))
+        sx.have("mod-of-raw-floor", sym.eq(sym.pymod(sym.pydiv(ra, pc), pW), sym.pymod(fb, pW)))
+        # (3) (x div p) mod q == (x mod (p*q)) div p   with b = x div (p*q) = (x div p) div q
+        b = sym.pydiv(ba, pWc)
+        sx.lemma("div-div", ba, pc, pW)
+        sx.lemma("div-sub-multiple", ba, pc, pW * b)
+        sx.have("div-mod-swap", sym.eq(sym.pymod(fb, pW), sym.pydiv(sym.pymod(ba, pWc), pc)))
+        n = sym.pydiv(ra, pc)
+
+        def post(real):
+            if not is_fx(real, kind):
+                return False
+            v = real.fields["_val"]
+            return sym.And(sym.eq(real.cls.params["width"], W), sym.eq(real.cls.params["exp"], right), sym.eq(width(v), W), bits(v) >= 0, bits(v) < pW,
+                           sym.eq(bits(v), sym.pymod(n, pW)))
+
+        return C.Pred(post, "pattern == floor(raw / 2**c) mod 2**W")
+
+    return spec
+
+
 for K, mod in ((SFixed, "cohdl.std._fixed:SFixed."), (UFixed, "cohdl.std._fixed:UFixed.")):
     con = contract(mod + "resize_fn", PROPS)
+
+    def req_wt(env):
+        sl = env["ae"] + env["aw"] - 1
+        return sym.And(sl > env["l"], env["l"] >= env["r"], env["ae"] < env["r"])
+
+    c = Case("narrow-left,drop-fraction,TRUNCATE,WRAP", [FxShape(K, "a"), PyInt("l", None, None, -6, 8), PyInt("r", None, None, -8, 6)], wrap_trunc_spec(K), requires=req_wt,
+             kwargs={"round_style": C.Const(RS.TRUNCATE, "rs"), "overflow_style": C.Const(OS.WRAP, "os")})
+    c.native = False
+    c.interp_flags = {"arith_hints": True}
+    c.timeout_factor = 4
+    con.cases.append(c)
     for sub in ("all-above", "overlap"):
         for rs in (RS.TRUNCATE, RS.ROUND):
             def req(env, sub=sub):
